@@ -65,4 +65,12 @@ PROPS = {
         "of WithRecover among 0..3 other interceptors, plus non-panicking controls; the stub treats a panic leaving ServeHTTP as net/http does; "
         "distinct = distinct scheduler-log hash among runs with >= 2 candidates",
         16000, 100000),
+    "C10": e2e(
+        "each run = either a client call with a deadline d (stratified: 10^k x unit +- 1 for every gRPC unit and k=0..8, the Connect 10-digit limit, "
+        "the int64 limit, log-uniform random; or no deadline) whose context is created in the same scheduler step as the library encodes the timeout "
+        "(remaining == d exactly on the fake clock), or a crafted request carrying a timeout header string (grammatical incl. leading zeros and 0; "
+        "near-grammatical: no/unknown/wrong-case unit, empty number, decimal point, hex, non-ASCII digits, embedded space, too many digits; arbitrary) "
+        "served directly; the header is parsed by the reference grammar; the handler deadline is compared with arrival time + value on the fake clock; "
+        "distinct = distinct scheduler-log hash among runs with >= 2 candidates",
+        16000, 1000000),
 }
